@@ -414,6 +414,28 @@ theorem C03_rdt_class (res : Option (Str → Except Unit Str)) (x z : Option Str
 
 end Families
 
+/-- non-vacuity of the per-family theorems: on the demo chain (`demo_ok`: `h` and `hwf` hold)
+    the extra hypotheses hold too — distinct device paths / mount destinations and a
+    well-formed environment of the original spec, and the sequential folds of the fallible
+    families succeed -/
+example :
+    NodupKeys Oci.Device.path (toSpec demoC0).devices ∧
+    NodupKeys Oci.Mount.destination (toSpec demoC0).mounts ∧ Env.WF (toSpec demoC0).env ∧
+    foldE (cdiG true []) [] (adjs demoChain) = .ok [str "v/c=d0", str "v/c=d1"] ∧
+    foldE (blockioG (some fun _ => .ok 7)) none (adjs demoChain) = .ok (some 7) ∧
+    foldE (rdtG none) none (adjs demoChain) = .ok none := by
+  obtain ⟨h1, h2, h3⟩ := specWF_parts (toSpec demoC0) demo_ok.2.2.1
+  exact ⟨h2, h1, h3, rfl, rfl, rfl⟩
+
+/-- … and the conclusions are about non-trivial values: e.g. the annotation `k0`, set by the
+    first plugin and re-set by the third, and the removed original annotation `drop` -/
+example :
+    (match run Quirks.fixed (initCreate demoC0) demoChain with
+     | .ok st' => some (AList.lookup (annG (toSpec demoC0).annotations st'.reply) (str "k0"),
+                        AList.lookup (annG (toSpec demoC0).annotations st'.reply) (str "drop"),
+                        AList.lookup ((adjs demoChain).foldl annG (toSpec demoC0).annotations) (str "k0"))
+     | .error _ => none) = some (some (str "v2"), none, some (str "v2")) := by decide
+
 /-! ### the assembled theorem -/
 
 /-- **C03 from any starting spec.** `ext`: recording CDI injector (or none), arbitrary class
